@@ -6,7 +6,8 @@
 (*  Schemas       a bounded JSON-Schema family as uniform TLA+ records        *)
 (*  Valid         an INDEPENDENT validator: plain JSON-Schema semantics of    *)
 (*                type / enum / minimum / maximum / properties / required /   *)
-(*                additionalProperties(false) / items / maxItems              *)
+(*                additionalProperties(false) / items / maxItems /            *)
+(*                maxProperties / dependentRequired                           *)
 (*  WithDefaults  defaults on absent, non-required properties, recursively;   *)
 (*                an absent optional object whose descendants have defaults   *)
 (*                is materialised                                             *)
@@ -43,8 +44,10 @@ SameJ(a, b) == a[1] = b[1] /\ a = b                       \* equality, tag first
 
 -----------------------------------------------------------------------------
 (* Schemas.  Optional keywords are sequences of length 0 or 1.                *)
+\* depReq : dependentRequired, a function from member names to sets of member names
 AnyS == [types |-> {}, enum |-> <<>>, min |-> <<>>, max |-> <<>>, def |-> <<>>,
-        props |-> <<>>, req |-> {}, addl |-> TRUE, items |-> <<>>, maxItems |-> <<>>]
+        props |-> <<>>, req |-> {}, addl |-> TRUE, items |-> <<>>, maxItems |-> <<>>,
+        maxProps |-> <<>>, depReq |-> <<>>]
 Typed(ts) == [AnyS EXCEPT !.types = ts]
 
 (* The independent validator. *)
@@ -62,7 +65,9 @@ Valid(s, x) ==
   /\ (x[1] = "obj" =>
         /\ \A p \in (DOMAIN s.props) \cap (DOMAIN x[2]) : Valid(s.props[p], x[2][p])
         /\ s.req \subseteq DOMAIN x[2]
-        /\ (~s.addl => (DOMAIN x[2]) \subseteq (DOMAIN s.props)))
+        /\ (~s.addl => (DOMAIN x[2]) \subseteq (DOMAIN s.props))
+        /\ (s.maxProps # <<>> => Cardinality(DOMAIN x[2]) <= s.maxProps[1])
+        /\ \A p \in (DOMAIN s.depReq) \cap (DOMAIN x[2]) : s.depReq[p] \subseteq DOMAIN x[2])
 
 RECURSIVE HasDefaultBelow(_)
 HasDefaultBelow(s) == s.def # <<>> \/ \E p \in DOMAIN s.props : HasDefaultBelow(s.props[p])
@@ -135,17 +140,79 @@ NonObjArgs == << JArr(<<JInt(1)>>), JStr("x"), JInt(3), JBool(TRUE) >>
 NonObjLab  == << "array", "string", "int", "bool" >>
 
 -----------------------------------------------------------------------------
+(* Explicit object schemas in which an applied default interacts with another *)
+(* constraint, so that "valid" and "valid after defaults" differ.  Used on the*)
+(* input side (kind "xin", In = map[string]any) and on the output side.       *)
+(*   objDep  : k integer default 5, r string, dependentRequired k -> r        *)
+(*   objMax  : k integer default 5, r string, maxProperties 2                 *)
+(*   objNest : optional cfg = object with required mode (enum) and a sibling  *)
+(*             lvl with default 1: an absent cfg is materialised as {lvl:1},  *)
+(*             which lacks cfg.mode                                           *)
+KRSchema == [Typed({"object"}) EXCEPT !.props = [k |-> [IntS EXCEPT !.def = <<JInt(5)>>], r |-> StrS]]
+XIds == {"objDep", "objMax", "objNest"}
+XSchema(id) ==
+  CASE id = "objDep"  -> [KRSchema EXCEPT !.depReq = [k |-> {"r"}]]
+    [] id = "objMax"  -> [KRSchema EXCEPT !.maxProps = <<2>>]
+    [] id = "objNest" -> [Typed({"object"}) EXCEPT
+                            !.props = [cfg |-> [Typed({"object"}) EXCEPT
+                                                  !.props = [mode |-> ModeSchema, lvl |-> LvlSchema],
+                                                  !.req = {"mode"}]]]
+KOpts == << Absent, JInt(1), JStr("x") >>
+ROpts == << Absent, JStr("s"), JInt(7) >>
+XOpts == << Absent, JBool(TRUE) >>
+ObjVals == {JObj(Member("k", KOpts[i]) @@ Member("r", ROpts[j]) @@ Member("extra", XOpts[l])) :
+              i \in DOMAIN KOpts, j \in DOMAIN ROpts, l \in DOMAIN XOpts}
+NestVals == {EmptyObj, JObj([cfg |-> EmptyObj]), JObj([cfg |-> JObj([mode |-> JStr("a")])]),
+             JObj([cfg |-> JObj([mode |-> JStr("a"), lvl |-> JInt(7)])]), JObj([cfg |-> JObj([lvl |-> JInt(7)])]),
+             JObj([extra |-> JInt(1)]), JObj([cfg |-> JStr("s")])}
+XVals(id) == IF id = "objNest" THEN NestVals ELSE ObjVals
+
+(* A Go struct with an EXPLICIT input schema that tolerates additional        *)
+(* properties (kind "sin"):                                                   *)
+(*   type InC struct { Limit int `json:"limit,omitempty"`; MaxItems int `json:"maxItems,omitempty"` } *)
+(* JSON-Schema member names are case sensitive: "Limit" is an unconstrained   *)
+(* additional member and must not reach the field of "limit".                 *)
+InCExplicit == [Typed({"object"}) EXCEPT
+                  !.props = [limit |-> [IntS EXCEPT !.min = <<0>>, !.max = <<10>>],
+                             maxItems |-> [IntS EXCEPT !.max = <<10>>, !.def = <<JInt(5)>>]]]
+InCInferred == [Typed({"object"}) EXCEPT !.props = [limit |-> IntS, maxItems |-> IntS], !.addl = FALSE]
+CLimOpts  == << Absent, JInt(7), JInt(1000) >>
+CLimLab   == << "absent", "ok", "above" >>
+CMaxOpts  == << Absent, JInt(3), JInt(1000) >>
+CMaxLab   == << "absent", "ok", "above" >>
+CLim2Opts == << Absent, JInt(1000) >>          \* member "Limit"
+CLim3Opts == << Absent, JInt(0 - 3) >>         \* member "LIMIT"
+CMax2Opts == << Absent, JInt(1000) >>          \* member "maxitems"
+CVarLab   == << "absent", "present" >>
+CArgIx == (DOMAIN CLimOpts) \X (DOMAIN CMaxOpts) \X (DOMAIN CLim2Opts) \X (DOMAIN CLim3Opts) \X (DOMAIN CMax2Opts)
+CArgsAt(ix) == JObj(Member("limit", CLimOpts[ix[1]]) @@ Member("maxItems", CMaxOpts[ix[2]]) @@ Member("Limit", CLim2Opts[ix[3]])
+                    @@ Member("LIMIT", CLim3Opts[ix[4]]) @@ Member("maxitems", CMax2Opts[ix[5]]))
+CClassAt(ix) == << CLimLab[ix[1]], CMaxLab[ix[2]], CVarLab[ix[3]], CVarLab[ix[4]], CVarLab[ix[5]] >>
+(* what InC holds of a JSON object: its two fields, 0 when the member is absent *)
+InCView(x) == IF x[1] # "obj" THEN x
+              ELSE JObj([p \in {"limit", "maxItems"} |-> IF p \in DOMAIN x[2] THEN x[2][p] ELSE JInt(0)])
+
+(* SchemaCache arrangements: "none"  no cache;                                 *)
+(*   "warm"   the cache already holds the inferred schemas of the Go types and *)
+(*            on this server the inferred tools are registered before the      *)
+(*            explicit-schema tools of the same Go types;                      *)
+(*   "xfirst" fresh cache, explicit-schema tools registered before the inferred*)
+(*            tools of the same Go types.                                      *)
+Caches == {"none", "warm", "xfirst"}
+
+-----------------------------------------------------------------------------
 (* Input side: reflected schemas for a fixed family of Go struct types.        *)
 (*   type Nest struct { Flag bool `json:"flag"` }                              *)
 (*   type InA  struct { N int `json:"n"`; Mode string `json:"mode"`;           *)
 (*                      Opt *Nest `json:"opt,omitempty"`; Tags []string `json:"tags,omitempty"` } *)
 (*   type InB  struct { Name string `json:"name"`; Inner Nest `json:"inner"`;  *)
 (*                      Nums []int `json:"nums"`; Lim *int `json:"lim,omitempty"` }             *)
-GoInTypes == {"InA", "InB"}
+GoInTypes == {"InA", "InB", "InC"}
 NestS(nullable) == [Typed(IF nullable THEN {"null", "object"} ELSE {"object"}) EXCEPT
                       !.props = [flag |-> BoolS], !.req = {"flag"}, !.addl = FALSE]
 GoInSchema(ty) ==
-  IF ty = "InA"
+  IF ty = "InC" THEN InCInferred
+  ELSE IF ty = "InA"
   THEN [Typed({"object"}) EXCEPT
           !.props = [n |-> IntS, mode |-> StrS, opt |-> NestS(TRUE),
                      tags |-> [Typed({"null", "array"}) EXCEPT !.items = <<StrS>>]],
@@ -176,28 +243,37 @@ BLimOpts   == << Absent, JNull, JInt(5), JStr("x"), JHalf(1) >>
 BLimLab    == << "absent", "null", "int", "string", "nonint" >>
 
 GoArgIx(ty) ==
-  IF ty = "InA" THEN (DOMAIN ANOpts) \X (DOMAIN AModeOpts) \X (DOMAIN AOptOpts) \X (DOMAIN ATagsOpts) \X (DOMAIN ExtraOpts)
+  IF ty = "InC" THEN CArgIx
+  ELSE IF ty = "InA" THEN (DOMAIN ANOpts) \X (DOMAIN AModeOpts) \X (DOMAIN AOptOpts) \X (DOMAIN ATagsOpts) \X (DOMAIN ExtraOpts)
   ELSE (DOMAIN BNameOpts) \X (DOMAIN BInnerOpts) \X (DOMAIN BNumsOpts) \X (DOMAIN BLimOpts) \X (DOMAIN ExtraOpts)
 GoArgsAt(ty, ix) ==
-  IF ty = "InA"
+  IF ty = "InC" THEN CArgsAt(ix)
+  ELSE IF ty = "InA"
   THEN JObj(Member("n", ANOpts[ix[1]]) @@ Member("mode", AModeOpts[ix[2]]) @@ Member("opt", AOptOpts[ix[3]])
             @@ Member("tags", ATagsOpts[ix[4]]) @@ Member("extra", ExtraOpts[ix[5]]))
   ELSE JObj(Member("name", BNameOpts[ix[1]]) @@ Member("inner", BInnerOpts[ix[2]]) @@ Member("nums", BNumsOpts[ix[3]])
             @@ Member("lim", BLimOpts[ix[4]]) @@ Member("extra", ExtraOpts[ix[5]]))
 GoClassAt(ty, ix) ==
-  IF ty = "InA" THEN << ANLab[ix[1]], AModeLab[ix[2]], AOptLab[ix[3]], ATagsLab[ix[4]], ExtraLab[ix[5]] >>
+  IF ty = "InC" THEN CClassAt(ix)
+  ELSE IF ty = "InA" THEN << ANLab[ix[1]], AModeLab[ix[2]], AOptLab[ix[3]], ATagsLab[ix[4]], ExtraLab[ix[5]] >>
   ELSE << BNameLab[ix[1]], BInnerLab[ix[2]], BNumsLab[ix[3]], BLimLab[ix[4]], ExtraLab[ix[5]] >>
 
 -----------------------------------------------------------------------------
 (* Input cases.  kind "in": explicit schema variant vr, In = map[string]any;  *)
-(* kind "rin": reflected Go type ty (vr unused), with/without SchemaCache.    *)
+(* kind "xin": explicit schema XSchema(ty), In = map[string]any;              *)
+(* kind "rin": reflected Go type ty (vr unused), cache arrangement in cache;  *)
+(* kind "sin": Go type InC with the explicit schema InCExplicit.              *)
 NoVariant == [nDef |-> FALSE, nReq |-> FALSE, addl |-> FALSE, nest |-> "none"]
 InCase(kind, vr, ty, cache, cls, args) ==
   [kind |-> kind, vr |-> vr, ty |-> ty, cache |-> cache, cls |-> cls, args |-> args]
 \* the case sets InCases / RInCases / OutCases are built in TypedTool.tla (the monitor does not need them)
-CaseInSchema(c) == IF c.kind = "in" THEN InSchemaF[c.vr] ELSE GoInSchema(c.ty)
+CaseInSchema(c) == CASE c.kind = "in"  -> InSchemaF[c.vr]
+                     [] c.kind = "xin" -> XSchema(c.ty)
+                     [] c.kind = "sin" -> InCExplicit
+                     [] OTHER          -> GoInSchema(c.ty)
 (* what the handler is entitled to see *)
-View(c, x) == IF c.kind = "rin" THEN StructView(CaseInSchema(c), x) ELSE x
+View(c, x) == IF c.ty = "InC" THEN InCView(x)
+              ELSE IF c.kind = "rin" THEN StructView(CaseInSchema(c), x) ELSE x
 
 \* Outcome of an input case: [ran, seen, isError, proto]; seen = JNull when the handler did not run
 ValidIn(c) == IsObj(c.args) /\ Valid(CaseInSchema(c), WithDefaults(CaseInSchema(c), c.args))
@@ -235,10 +311,13 @@ CodeValidate(s, x) ==
       lenBad  == x[1] = "arr" /\ s.maxItems # <<>> /\ Len(x[2]) > s.maxItems[1]
       propBad == x[1] = "obj" /\ \E p \in (DOMAIN s.props) \cap (DOMAIN x[2]) : CodeValidate(s.props[p], x[2][p]) # "ok"
       addlBad == x[1] = "obj" /\ ~s.addl /\ \E p \in DOMAIN x[2] : p \notin DOMAIN s.props
+      maxpBad == x[1] = "obj" /\ s.maxProps # <<>> /\ Cardinality(DOMAIN x[2]) > s.maxProps[1]
       reqBad  == x[1] = "obj" /\ \E p \in s.req : p \notin DOMAIN x[2]
+      depBad  == x[1] = "obj" /\ \E p \in (DOMAIN s.depReq) \cap (DOMAIN x[2]) : \E q \in s.depReq[p] : q \notin DOMAIN x[2]
   IN IF typeBad THEN "type" ELSE IF enumBad THEN "enum" ELSE IF minBad THEN "minimum" ELSE IF maxBad THEN "maximum"
      ELSE IF itemBad THEN "items" ELSE IF lenBad THEN "maxItems" ELSE IF propBad THEN "properties"
-     ELSE IF addlBad THEN "additionalProperties" ELSE IF reqBad THEN "required" ELSE "ok"
+     ELSE IF addlBad THEN "additionalProperties" ELSE IF maxpBad THEN "maxProperties"
+     ELSE IF reqBad THEN "required" ELSE IF depBad THEN "dependentRequired" ELSE "ok"
 
 RejectIn == [ran |-> FALSE, seen |-> JNull, isError |-> TRUE, proto |-> FALSE]
 ExpectedIn(c) ==
@@ -254,14 +333,21 @@ ExpectedIn(c) ==
 OutObjSchema(rReq, addl) ==
   [Typed({"object"}) EXCEPT !.props = [k |-> [IntS EXCEPT !.def = <<JInt(5)>>], r |-> StrS],
                             !.req = IF rReq THEN {"r"} ELSE {}, !.addl = addl]
-OutSchemaIds == {"objRO", "objRC", "objOO", "objOC", "arr", "int", "enum"}
+(* explicit, stricter schema for the Go type OutS (okind "structx"): n <= 10 *)
+OutSXSchema ==
+  [Typed({"object"}) EXCEPT
+     !.props = [n |-> [IntS EXCEPT !.max = <<10>>], mode |-> StrS, tags |-> [Typed({"null", "array"}) EXCEPT !.items = <<StrS>>]],
+     !.req = {"n", "mode", "tags"}, !.addl = FALSE]
+OutSchemaIds == {"objRO", "objRC", "objOO", "objOC", "arr", "int", "enum"} \cup XIds \cup {"outsx"}
 OutSchema(id) ==
-  CASE id = "objRO" -> OutObjSchema(TRUE, TRUE)   [] id = "objRC" -> OutObjSchema(TRUE, FALSE)
+  CASE id \in XIds -> XSchema(id)
+    [] id = "outsx" -> OutSXSchema
+    [] id = "objRO" -> OutObjSchema(TRUE, TRUE)   [] id = "objRC" -> OutObjSchema(TRUE, FALSE)
     [] id = "objOO" -> OutObjSchema(FALSE, TRUE)  [] id = "objOC" -> OutObjSchema(FALSE, FALSE)
     [] id = "arr"   -> [Typed({"array"}) EXCEPT !.items = <<IntS>>, !.maxItems = <<2>>]
     [] id = "int"   -> [IntS EXCEPT !.min = <<1>>, !.max = <<3>>]
     [] id = "enum"  -> [StrS EXCEPT !.enum = <<{JStr("a"), JStr("b")}>>]
-ObjIds == {"objRO", "objRC", "objOO", "objOC"}
+ObjIds == {"objRO", "objRC", "objOO", "objOC"} \cup XIds
 
 (* reflected output types:                                                    *)
 (*   type OutS struct { N int `json:"n"`; Mode string `json:"mode"`; Tags []string `json:"tags"` } *)
@@ -278,15 +364,11 @@ GoOutSchema(k) ==
     [] k = "rbool" -> BoolS
 
 ZeroOutS == JObj([n |-> JInt(0), mode |-> JStr(""), tags |-> JNull])
+BigOutS == JObj([n |-> JInt(700), mode |-> JStr("a"), tags |-> JNull])
 OutSVals == {ZeroOutS, JObj([n |-> JInt(2), mode |-> JStr("a"), tags |-> JArr(<<>>)]),
              JObj([n |-> JInt(2), mode |-> JStr("a"), tags |-> JArr(<<JStr("x")>>)])}
 
-(* handler outputs *)
-KOpts == << Absent, JInt(1), JStr("x") >>
-ROpts == << Absent, JStr("s"), JInt(7) >>
-XOpts == << Absent, JBool(TRUE) >>
-ObjVals == {JObj(Member("k", KOpts[i]) @@ Member("r", ROpts[j]) @@ Member("extra", XOpts[l])) :
-              i \in DOMAIN KOpts, j \in DOMAIN ROpts, l \in DOMAIN XOpts}
+(* handler outputs (ObjVals, NestVals: above) *)
 IntArrVals == {JArr(<<>>), JArr(<<JInt(1), JInt(2)>>), JArr(<<JInt(1), JInt(2), JInt(3)>>)}
 IntVals == {JInt(0), JInt(1), JInt(3), JInt(4)}
 StrVals == {JStr("a"), JStr("c")}
